@@ -324,8 +324,6 @@ def deletion_triggers(m, kind, target, extra=None):
     trig = set()
     if kind == "space":
         tree = static_tree(target)
-        if any(len(t.itemspaces) for t in tree):
-            trig.add("D14")
         if any(subs_of(m, t) for t in tree[1:]):
             trig.add("C13a")
         if any(any(t is u for u in tree) for t in subs_of(m, target)):
@@ -333,16 +331,17 @@ def deletion_triggers(m, kind, target, extra=None):
         affected = []
         for t in tree:
             affected += subs_of(m, t)
-        if has_items_above(target):          # the parent loses a member
-            trig.add("C13c")
     elif kind == "cells":
         sp = target.parent
         affected = [sp] + subs_of(m, sp)
     else:
         affected = [target] + subs_of(m, target)
-    for t in affected:
-        if has_items_above(t):
-            trig.add("C13c")
+    # lazy namespaces (Lazy layer, not modelled here): when the members of a space change through
+    # inheritance (on_inherit) the ItemSpaces of containing spaces that hold a copy of it are discarded
+    # only if its namespace had been looked at since the last change
+    inherited = affected if kind in ("space", "bases", "addbases") else affected[1:]
+    if any(has_items_above(t) for t in inherited):
+        trig.add("stale_ns")
     if kind in ("space", "bases"):
         # D3: the re-derivation after remove_bases / del space walks the old graph breadth first; a space that
         # inherits from the edited one along two routes can be visited before one of its bases (IndexError)
@@ -464,6 +463,12 @@ def gen_op(rng, m, H, ftab, profile, filtered, avoid):
                 db = [i for i in dead if isinstance(H[i], UserSpace)]
                 if db:
                     hb = [rng.choice(db)]
+            if avoid and is_alive(H[h]):
+                trig = deletion_triggers(m, "addbases", H[h])
+                if trig:
+                    for t in trig:
+                        filtered[t] = filtered.get(t, 0) + 1
+                    return None
             return ["AddBases", h, hb]
         if not is_alive(H[h]):
             return ["RemoveBases", h, [pick(uspaces) or 0]]
